@@ -430,7 +430,7 @@ def run(run):
                     decls = sized_struct(r, "Big", total, placement)
                     mixed = r.random() < 0.5
                     alias = "BigFrame" if r.random() < 0.35 else None
-                    binding = can_impl("Big", 100, alias=alias)
+                    binding = can_impl("Big", 0 if r.random() < 0.25 else 100, alias=alias)  # frame id 0 is an id
                     muxed = ""
                     scal = [f for f in decls[-1]["fields"] if f["type"][0] in ("u", "i")]
                     cands = [f for f in scal if f["type"][0] == "u" and 2 <= f["type"][1] <= 8]
